@@ -16,8 +16,7 @@
 (*  3. KNOWN DEVIATIONS of lexer.go as named branches (constant            *)
 (*     Deviations; {} = the property as stated).                           *)
 (* LexSpansTrace re-uses Token/Seg/Finish to validate token streams and    *)
-(* colourizer outputs recorded from the real code; LexMech models the      *)
-(* counter mechanism of lexer.go and is checked to take only Token steps.  *)
+(* colourizer outputs recorded from the real code.                         *)
 (*                                                                         *)
 (* Vocabulary of position.Span in the implementation (not part of the      *)
 (* property): offsets are 0-based; a span is [s, e] with e the offset of   *)
